@@ -9,7 +9,7 @@ The helpers of this module are shared by c03.py (spin version) and c16.py.
 import itertools
 import warnings
 
-from .common import (clause, Fail, Skip, qv, LABELS, INT_COEFS, gen_models, all_small_models, variables_of,
+from .common import (clause, Fail, Skip, qv, cls_of, LABELS, INT_COEFS, gen_models, all_small_models, variables_of,
                      peval)
 
 RELS = ("eq", "ne", "lt", "le", "gt", "ge")
@@ -173,7 +173,10 @@ def add_constraint(H, rel, P, lam, log=True, bounds=None, **extra):
         kw["bounds"] = tuple(bounds)
     if rel != "eq":
         kw["log_trick"] = log
-    return getattr(H, "add_constraint_%s_zero" % rel)(dict(P), **kw)
+    argtype = kw.pop("argtype", None)
+    arg = dict(P) if not argtype else cls_of(argtype)(dict(P))
+    kw.pop("keep", [None]).append(arg)
+    return getattr(H, "add_constraint_%s_zero" % rel)(arg, **kw)
 
 
 def add_recording_warnings(H, rel, P, lam, log=True, bounds=None):
@@ -545,7 +548,28 @@ def _nontrivial_valid(case, spin=False):
 
 def run_valid_case(case, cls_name="PCBO", spin=False):
     q = qv()
-    H = build_pre(getattr(q, cls_name), case)
+    if case.get("argtype"):
+        # the constraint polynomials are handed over as model objects which the caller keeps and edits in place
+        # afterwards: what the model recorded must not follow those edits
+        H = getattr(q, cls_name)()
+        for k, v in case["obj"].items():
+            H[k] += v
+        kept = []
+        for rel, P, lam, log in case["cons"]:
+            with warnings.catch_warnings():
+                warnings.simplefilter("ignore")
+                add_constraint(H, rel, P, lam, log, argtype=case["argtype"], keep=kept)
+        for i, arg in enumerate(kept):
+            before = dict(arg)
+            if i % 2:
+                arg *= -1
+            else:
+                arg[()] += 3
+            arg[(LABELS[0],)] += 2
+            if dict(arg) == before:
+                return Skip("edit had no effect")
+    else:
+        H = build_pre(getattr(q, cls_name), case)
     xs = variables_of(case["obj"])
     for _, P, _, _ in case["cons"]:
         for lab in variables_of(P):
@@ -634,7 +658,17 @@ def run_sequence_case(case, cls_name="PCBO", spin=False, bookkeeping=False):
     seen_anc = set()
     parts = []
     any_unsat = False
+    via = case.get("via")
     for i, (rel, P, lam, log) in enumerate(case["cons"]):
+        if via and i >= 1:
+            # the model the next constraint goes to is a copy of the model so far (copy(), the copy constructor,
+            # or the result of an arithmetic operation that keeps the function)
+            src = plain(H)
+            H = {"copy": lambda m: m.copy(), "ctor": lambda m: type(m)(m), "plus0": lambda m: m + 0,
+                 "times1": lambda m: 1 * m}[via](H)
+            if type(H).__name__ != cls_name or poly_diff(plain(H), src):
+                return Fail("%s of the model is %s %r, model was %r" % (via, type(H).__name__, plain(H), src),
+                            key="copy-differs")
         before = plain(H)
         old = set(variables_of(before))
         unsat = add_recording_warnings(H, rel, P, lam, log)
@@ -687,6 +721,24 @@ def run_sequence_case(case, cls_name="PCBO", spin=False, bookkeeping=False):
     return None
 
 
+def with_copies(gen, every=3):
+    """the sequences of `gen`, with the model copied (one of four ways) before every constraint but the first"""
+    def g(ctx):
+        vias = ("copy", "ctor", "plus0", "times1")
+        for i, case in enumerate(gen(ctx)):
+            if i % every == 0:
+                yield dict(case, via=vias[(i // every) % len(vias)])
+    return g
+
+
+def with_argtypes(gen, types, every=3):
+    def g(ctx):
+        for i, case in enumerate(gen(ctx)):
+            if i % every == 0:
+                yield dict(case, argtype=types[(i // every) % len(types)])
+    return g
+
+
 def _nontrivial_seq(case):
     """at least two of the constraints need ancillas (by the coefficient-sum estimate)"""
     return sum(1 for rel, Q, _, log in case["cons"] if anc_estimate(rel, *sum_enclosure(Q), log) > 0) >= 2
@@ -701,3 +753,24 @@ def check_sequence(case):
     total penalty is at least the sum of lam over the violated constraints for every ancilla assignment. Non-trivial:
     at least two constraints need ancillas."""
     return run_sequence_case(case)
+
+
+
+@clause("C02.ancillas_across_copies", "C02", gen=with_copies(_gen_sequence), nontrivial=_nontrivial_seq)
+def check_sequence_copies(case):
+    """C02.distinct_ancillas where the model is replaced by a copy of itself (copy(), PCBO(model), model + 0,
+    1 * model) before every constraint but the first: the copy denotes the same function and has the same type, and
+    the constraints added to it get ancillas that are new for it, so the penalties still add independently.
+    Non-trivial: at least two constraints need ancillas."""
+    return run_sequence_case(case)
+
+
+@clause("C02.is_solution_valid_after_argument_edits", "C02", gen=with_argtypes(_gen_valid, ["PUBO", "PCBO", "QUBO"]),
+        nontrivial=_nontrivial_valid)
+def check_valid_argedits(case):
+    """C02.is_solution_valid where every constraint polynomial is handed over as a PUBO / PCBO / QUBO object that the
+    caller edits in place after the call (scaled by -1 or shifted, and a linear term changed): is_solution_valid
+    still decides the constraints as they were added. Non-trivial: some constraint has both outcomes."""
+    if case["argtype"] == "QUBO" and any(len(set(k)) > 2 for _, P, _, _ in case["cons"] for k in P):
+        return Skip("degree > 2 polynomial cannot be a QUBO")
+    return run_valid_case(case)
